@@ -7,6 +7,7 @@ pub mod gm;
 pub mod render;
 pub mod gen;
 pub mod real;
+pub mod tsparse;
 
 pub use prng::Rng;
 pub use sexp::Sexp;
